@@ -49,6 +49,25 @@ func routingItems(harness string, stages func(tbl int) []int) func(tier string, 
 				out = append(out, item{Harness: harness, Cfg: []int{g.idx, router, 0}, Label: "generated table (pair of templates from the grammar on service /t)"})
 			}
 		}
+		// generated media tables (header stage): 528 unordered pairs; a seeded sample of 6 in quick
+		if harness == "H_C01" || harness == "H_C02" {
+			const nMedia = 32 * 33 / 2
+			var pick []int
+			if tier == "thorough" {
+				for g := 0; g < nMedia; g++ {
+					pick = append(pick, g)
+				}
+			} else {
+				x := uint64(seed)*2654435761 + 99
+				for len(pick) < 6 {
+					x = x*6364136223846793005 + 1442695040888963407
+					pick = append(pick, int((x>>33)%nMedia))
+				}
+			}
+			for _, g := range pick {
+				out = append(out, item{Harness: harness, Cfg: []int{5000 + g, (g + seed) % 2, 1}, Label: "generated media table (two routes on /t/a with methods and Consumes/Produces lists from the grammar), header stage"})
+			}
+		}
 		return out
 	}
 }
